@@ -33,7 +33,7 @@ theorem nansum_map_map (g : K → K) (v : List (Option K)) :
 end nansum
 
 section mean
-variable {K : Type} [Field K]
+variable {K : Type} [Field K] [LinearOrder K]
 
 /-- (value, weight) of the RDMs that contribute to an entry -/
 def present (col : List (Option K × Option K)) : List (K × K) :=
